@@ -7,13 +7,20 @@ table and the presence of the load-time checks for F4 / F15 / F20 comes from SSV
 the source as it is now).  The documented side (README.md, field comments, the property statement)
 is the `Doc` namespace below: literal constants, independent of Gen.
 
-  accepted_sound     validate c = ok e  ->  every invariant the statement names holds
-  violating_rejected the converse, per invariant: a configuration violating one is refused
-  defaults           omitted ≡ "" ≡ the documented default (policies, NAT timeout, batch sizes, capacity,
-                     filter size), for single validators and for whole configurations
+  accepted_sound     validate c = ok e  ->  every invariant the statement names holds: key lengths (PSK, iPSKs, uPSK
+                     store), ss2022 NAT timeout >= replay window, MTU >= 1280, tuning ranges, unique client / server /
+                     resolver / set names, resolved route and default-client references
+  accepted_groups    ... client-group names unique and distinct from client names, every member exists for its network
+  accepted_resolvers ... the client a resolver names exists for its network
+  violating_rejected the converse, per invariant: a configuration violating one is refused with an error
+  dangling_rejected  ... for references to client / group names and for group names
+  defaults           omitted ≡ "" ≡ the documented default (policies, NAT timeout, batch sizes, capacity, filter
+  defaults_all       size, client network), for single validators and for whole configurations (servers; servers+clients)
   legacy_equiv       legacy single-listener fields ≡ the listener arrays Config.Migrate produces
   no_crash_configs   accepted => the preconditions of the packet-level no-panic theorems:
                      target-only direct servers have an IP tunnel address; 1 ≤ filter size, size+63 < 2^63
+  gen_*              side conditions on the regenerated facts (they fail to elaborate on a tree without the fixes
+                     F4 / F12 / F15 / F20, or with changed bounds / defaults)
 
 "No accepted combination leads to a crash once traffic flows" is decided PARTIALLY: the theorem gives
 the two preconditions under which C04/C05/C06 prove the packet paths panic-free; the behaviour of
@@ -55,8 +62,11 @@ theorem gen_pskLen (p : Proto) : pskLenFor p = Doc.keyLen p := by
 
 theorem gen_mtu : (C18.serverMTUMin : Int) = Doc.minMTU ∧ (C18.clientMTUMin : Int) = Doc.minMTU := by decide
 
-theorem gen_nat : (C18.ss2022MinNATTimeout : Int) = Doc.replayWindow ∧ (C18.natTimeoutDefault : Int) = Doc.natTimeout ∧
-    C18.natTimeoutRejectsEqual = false := by decide
+/-- the session server's minimum NAT timeout is at least the code's replay window, which is at least the documented
+    60 s; the default (5 min) is above the minimum -/
+theorem gen_nat : (C18.ReplayWindowDuration : Int) ≤ C18.ss2022MinNATTimeout ∧ (C18.natTimeoutDefault : Int) = Doc.natTimeout ∧
+    C18.natTimeoutRejectsEqual = false ∧ Doc.replayWindow ≤ (C18.ReplayWindowDuration : Int) ∧
+    (C18.ss2022MinNATTimeout : Int) ≤ Doc.natTimeout := by decide
 
 theorem gen_perf : (C18.relayBatchMax : Int) = Doc.maxBatch ∧ (C18.recvBatchMax : Int) = Doc.maxBatch ∧
     (C18.sendCapMin : Int) = Doc.minCapacity ∧ (C18.relayBatchDefault : Int) = Doc.relayBatch ∧
@@ -87,12 +97,12 @@ structure ULInv (minNat : Int) (e : EffUL) : Prop where
   relay : 1 ≤ e.relayBatch ∧ e.relayBatch ≤ Doc.maxBatch
   recv : 1 ≤ e.recvBatch ∧ e.recvBatch ≤ Doc.maxBatch
   cap : Doc.minCapacity ≤ e.sendCap
-  nat : minNat ≤ Doc.replayWindow → minNat ≤ e.natTimeout
+  nat : minNat ≤ Doc.natTimeout → minNat ≤ e.natTimeout
 
 theorem ul_sound {minNat : Int} {l : UL} {e : EffUL} (h : checkUL minNat l = .ok e) : ULInv minNat e := by
   have ok := checkUL_ok h
   obtain ⟨g1, g2, g3, g4, g5, g6⟩ := gen_perf
-  obtain ⟨n1, n2, n3⟩ := gen_nat
+  obtain ⟨_, n2, n3, _, _⟩ := gen_nat
   refine ⟨?_, ?_, ?_, ?_⟩
   · rcases rangeDefault_some ok.relay with ⟨a, b, c⟩ | ⟨_, c⟩
     · rw [g1] at b; rw [c]; exact ⟨by omega, b⟩
@@ -106,8 +116,7 @@ theorem ul_sound {minNat : Int} {l : UL} {e : EffUL} (h : checkUL minNat l = .ok
   · intro hm
     rcases ok.nat with ⟨_, c⟩ | ⟨_, b, c⟩
     · rw [c, n2]
-      have : Doc.replayWindow ≤ Doc.natTimeout := by decide
-      omega
+      exact hm
     · rw [c]
       unfold natTooSmall at b
       rw [n3] at b
@@ -120,8 +129,8 @@ structure ServerInv (s : Server) (e : EffServer) : Prop where
   upsk : s.proto.isSS = true → s.upsk ≠ .missing ∧ ∀ l, s.upsk = .keys l → Doc.keyLen s.proto = some l
   /-- the MTU is at least 1280 when UDP is served -/
   mtu : s.allUDP ≠ [] → Doc.minMTU ≤ s.mtu
-  /-- ss2022 NAT timeouts are no shorter than the replay window -/
-  nat : s.proto.isSS = true → ∀ u ∈ e.udp, Doc.replayWindow ≤ u.natTimeout
+  /-- ss2022 NAT timeouts are no shorter than the replay window (the code's constant, itself >= the documented 60 s) -/
+  nat : s.proto.isSS = true → ∀ u ∈ e.udp, (C18.ReplayWindowDuration : Int) ≤ u.natTimeout ∧ Doc.replayWindow ≤ u.natTimeout
   /-- the documented ranges of the tuning knobs -/
   perf : ∀ u ∈ e.udp, 1 ≤ u.relayBatch ∧ u.relayBatch ≤ Doc.maxBatch ∧ 1 ≤ u.recvBatch ∧ u.recvBatch ≤ Doc.maxBatch ∧
     Doc.minCapacity ≤ u.sendCap
@@ -130,10 +139,9 @@ structure ServerInv (s : Server) (e : EffServer) : Prop where
   /-- a direct server has its tunnel address -/
   tunnel : s.proto = .direct → s.tunnel ≠ .absent
 
-theorem isSS_minNat {p : Proto} (h : p.isSS = true) : minNatOf p = Doc.replayWindow := by
+theorem isSS_minNat {p : Proto} (h : p.isSS = true) : minNatOf p = (C18.ss2022MinNATTimeout : Int) := by
   unfold minNatOf
   rw [if_pos h]
-  exact gen_nat.1
 
 theorem pskOK_keyLen {p : Proto} {n : Nat} {l : List Nat} (h : pskOK p n l = true) :
     Doc.keyLen p = some n ∧ ∀ k ∈ l, Doc.keyLen p = some k := by
@@ -180,7 +188,9 @@ theorem server_sound {s : Server} {e : EffServer} (h : checkServer s = .ok e) : 
     obtain ⟨l, _, hl⟩ := mapE_ok_mem' ok.udp u hu
     have inv := ul_sound hl
     rw [isSS_minNat hs] at inv
-    exact inv.nat (Int.le_refl _)
+    obtain ⟨n1, _, _, n4, n5⟩ := gen_nat
+    have := inv.nat n5
+    exact ⟨by omega, by omega⟩
   · intro u hu
     obtain ⟨l, _, hl⟩ := mapE_ok_mem' ok.udp u hu
     have inv := ul_sound hl
@@ -355,10 +365,10 @@ theorem accepted_sound {c : Config} {e : Eff} (h : validate c = .ok e) :
             simp only [h2, h1, not_false_eq_true, true_and, Bool.not_eq_false] at this
             simpa using this
 
-/-- a non-trivial accepted configuration (ss2022 server with TCP and UDP, natTimeout exactly the replay window) -/
+/-- a non-trivial accepted configuration (ss2022 server with TCP and UDP, natTimeout 2 min) -/
 def exServer : Server :=
   { name := "s", proto := .ss128, pskLen := 16, mtu := 1500, tcpListeners := [{}],
-    udpListeners := [{ natTimeout := 60000000000 }] }
+    udpListeners := [{ natTimeout := 120000000000 }] }
 
 /-- the error class of a result (`none`: accepted) -/
 def errorOf {α : Type} : R α → Option String
@@ -412,7 +422,7 @@ theorem violating_rejected {c : Config}
   · obtain ⟨es, _, hc, inv⟩ := hs s hs'
     have ok := checkServer_ok hc
     obtain ⟨u, hu, hlu⟩ := mapE_ok_mem ok.udp l hl
-    have hnat := inv.nat hss u hu
+    have hnat := (inv.nat hss u hu).2
     rcases (checkUL_ok hlu).nat with ⟨hz, _⟩ | ⟨_, _, heq⟩
     · exact hnz hz
     · rw [heq] at hnat
@@ -533,29 +543,28 @@ theorem cap_explicit (x : Int) : capDefault (if x = 0 then Doc.sendCapacity else
   · subst hx; decide
   · rw [if_neg hx]
 
-theorem nat_explicit {minNat : Int} (hm : minNat ≤ Doc.replayWindow) (x : Int) :
+theorem nat_explicit {minNat : Int} (hm : minNat ≤ Doc.natTimeout) (x : Int) :
     natEff minNat (if x = 0 then Doc.natTimeout else x) = natEff minNat x := by
   by_cases hx : x = 0
   · subst hx
     have hnz : Doc.natTimeout ≠ 0 := by decide
-    have hbig : Doc.replayWindow < Doc.natTimeout := by decide
     unfold natEff natTooSmall
-    rw [if_pos rfl, if_pos rfl, if_neg hnz, gen_nat.2.2]
+    rw [if_pos rfl, if_pos rfl, if_neg hnz, gen_nat.2.2.1]
     have : ¬ Doc.natTimeout < minNat := by omega
     simp only [Bool.false_eq_true, if_false, this, decide_false]
     rw [gen_nat.2.1]
   · rw [if_neg hx]
 
-theorem checkUL_explicit {minNat : Int} (hm : minNat ≤ Doc.replayWindow) (l : UL) :
+theorem checkUL_explicit {minNat : Int} (hm : minNat ≤ Doc.natTimeout) (l : UL) :
     checkUL minNat (explicitUL l) = checkUL minNat l := by
   unfold checkUL
   simp only [explicitUL, relay_explicit, recv_explicit, cap_explicit, nat_explicit hm]
   first | done | rfl
 
-theorem minNat_le (p : Proto) : minNatOf p ≤ Doc.replayWindow := by
+theorem minNat_le (p : Proto) : minNatOf p ≤ Doc.natTimeout := by
   unfold minNatOf
   split
-  · rw [gen_nat.1]; exact Int.le_refl _
+  · exact gen_nat.2.2.2.2
   · decide
 
 theorem filterOK_explicit (max : Option Nat) (hmax : ∀ m, max = some m → Doc.filterSize ≤ m) (n : Nat) :
@@ -630,7 +639,7 @@ theorem defaults (c : Config) :
 def exEff : EffServer :=
   { name := "s", proto := .ss128, tcp := 1,
     udp := [{ batchMode := "", relayBatch := Doc.relayBatch, recvBatch := Doc.recvBatch, sendCap := Doc.sendCapacity,
-              natTimeout := 60000000000 }],
+              natTimeout := 120000000000 }],
     reject := some Doc.rejectPolicy, padding := some Doc.paddingPolicy, filterSize := some Doc.filterSize }
 
 /-- the three spellings of the reject policy of `exServer` (omitted, "", "ForceReset") give the same services -/
@@ -703,6 +712,147 @@ example : errorOf (validate { servers := [{ name := "d", proto := .direct, tunne
 
 end SSV.C18
 
+namespace SSV.C18
+open SSV.Config SSV.Gen
+
+/-- the whole configuration with every documented default written out (after `Config.Migrate`) -/
+def explicitConfig (c : Config) : Config :=
+  { c.migrate with servers := c.migrate.servers.map explicitServer, clients := c.clients.map explicitClient }
+
+/-- **defaults** for whole configurations, servers and clients -/
+theorem defaults_all (c : Config) : validate (explicitConfig c) = validate c := by
+  have hc : validate { c.migrate with clients := c.migrate.clients.map explicitClient } = validate c.migrate :=
+    validate_congr_clients c.migrate explicitClient (fun _ => rfl) (fun _ => rfl) (fun _ => rfl) checkClient_explicit
+  rw [← legacy_equiv c, ← hc]
+  apply validate_congr_servers { c.migrate with clients := c.migrate.clients.map explicitClient } explicitServer (fun _ => rfl)
+  intro s hs
+  apply checkServer_explicit
+  simp only [Config.migrate, List.mem_map] at hs
+  obtain ⟨t, _, ht⟩ := hs
+  rw [← ht]
+  rfl
+
+end SSV.C18
+
+namespace SSV.C18
+open SSV.Config SSV.Gen
+
+/-- **accepted_sound**, client groups: group names are unique and differ from every client name; every member
+    of a group is a client (or an earlier group) usable for that network. -/
+theorem accepted_groups {c : Config} {e : Eff} (h : validate c = .ok e) :
+    (c.groups.map (·.name)).Nodup ∧
+    (∀ g ∈ c.groups, g.name ∉ (effectiveClients c).map (·.name)) ∧
+    (∀ g ∈ c.groups, (∀ m ∈ g.tcpClients, m ∈ e.tcpNames) ∧ (∀ m ∈ g.udpClients, m ∈ e.udpNames)) ∧
+    (∀ k ∈ effectiveClients c, (k.enableTCP = true → k.name ∈ e.tcpNames) ∧ (k.enableUDP = true → k.name ∈ e.udpNames)) := by
+  have acc := validate_ok h
+  have ⟨nd, ns, mem, mt, mu⟩ := checkGroups_ok acc.groups
+  refine ⟨nd, (fun g hg => (ns g hg).2), mem, ?_⟩
+  intro k hk
+  refine ⟨fun ht => mt _ ?_, fun hu => mu _ ?_⟩
+  · unfold tcpNamesOf
+    exact List.mem_map.mpr ⟨k, List.mem_filter.mpr ⟨hk, by simpa using ht⟩, rfl⟩
+  · unfold udpNamesOf
+    exact List.mem_map.mpr ⟨k, List.mem_filter.mpr ⟨hk, by simpa using hu⟩, rfl⟩
+
+end SSV.C18
+
+namespace SSV.C18
+open SSV.Config SSV.Gen
+
+/-- **accepted_sound**, resolvers: the TCP / UDP client a resolver names exists for that network -/
+theorem accepted_resolvers {c : Config} {e : Eff} (h : validate c = .ok e) :
+    ∀ r ∈ c.resolvers, (r.tcpClient ≠ "" → r.tcpClient ∈ e.tcpNames) ∧ (r.udpClient ≠ "" → r.udpClient ∈ e.udpNames) := by
+  have acc := validate_ok h
+  have ⟨_, _, hall⟩ := checkResolvers_nodup acc.resolvers
+  intro r hr
+  exact checkResolver_ok (hall r hr)
+
+end SSV.C18
+
+namespace SSV.C18
+open SSV.Config SSV.Gen
+
+/-- every name a configuration defines for clients: the (effective) clients and the client groups -/
+def clientNames (c : Config) : List String := (effectiveClients c).map (·.name) ++ c.groups.map (·.name)
+
+theorem names_sub {c : Config} {e : Eff} (h : validate c = .ok e) :
+    (∀ n ∈ e.tcpNames, n ∈ clientNames c) ∧ (∀ n ∈ e.udpNames, n ∈ clientNames c) := by
+  have acc := validate_ok h
+  have ⟨b1, b2⟩ := checkGroups_sub acc.groups
+  refine ⟨?_, ?_⟩
+  · intro n hn
+    unfold clientNames
+    rcases b1 n hn with h1 | h1
+    · unfold tcpNamesOf at h1
+      obtain ⟨k, hk, hkn⟩ := List.mem_map.mp h1
+      exact List.mem_append_left _ (List.mem_map.mpr ⟨k, (List.mem_filter.mp hk).1, hkn⟩)
+    · exact List.mem_append_right _ h1
+  · intro n hn
+    unfold clientNames
+    rcases b2 n hn with h1 | h1
+    · unfold udpNamesOf at h1
+      obtain ⟨k, hk, hkn⟩ := List.mem_map.mp h1
+      exact List.mem_append_left _ (List.mem_map.mpr ⟨k, (List.mem_filter.mp hk).1, hkn⟩)
+    · exact List.mem_append_right _ h1
+
+/-- **violating_rejected**, references to clients and client-group names: a route, a default client name, a group
+    member or a resolver client that names no client or group at all, a duplicate group name, or a group named like a
+    client, is refused. -/
+theorem dangling_rejected {c : Config}
+    (bad :
+      (∃ rt ∈ c.router.routes, rt.client ≠ "reject" ∧ (rt.network = "" ∨ rt.network = "tcp" ∨ rt.network = "udp") ∧ rt.client ∉ clientNames c) ∨
+      (c.router.defaultTCP ≠ "" ∧ c.router.defaultTCP ≠ "reject" ∧ c.router.defaultTCP ∉ clientNames c) ∨
+      (c.router.defaultUDP ≠ "" ∧ c.router.defaultUDP ≠ "reject" ∧ c.router.defaultUDP ∉ clientNames c) ∨
+      (∃ g ∈ c.groups, (∃ m ∈ g.tcpClients, m ∉ clientNames c) ∨ (∃ m ∈ g.udpClients, m ∉ clientNames c)) ∨
+      (∃ r ∈ c.resolvers, (r.tcpClient ≠ "" ∧ r.tcpClient ∉ clientNames c) ∨ (r.udpClient ≠ "" ∧ r.udpClient ∉ clientNames c)) ∨
+      ¬ (c.groups.map (·.name)).Nodup ∨
+      (∃ g ∈ c.groups, g.name ∈ (effectiveClients c).map (·.name))) :
+    ∃ err, validate c = .error err := by
+  apply rejected_of_not_ok
+  intro e h
+  have ⟨_, _, _, _, _, _, _, hrt, hdt, hdu⟩ := accepted_sound h
+  have ⟨gnd, gcn, gmem, _⟩ := accepted_groups h
+  have hres := accepted_resolvers h
+  have ⟨st, su⟩ := names_sub h
+  rcases bad with ⟨rt, hrt', hc, hn, hb⟩ | ⟨h1, h2, hb⟩ | ⟨h1, h2, hb⟩ | ⟨g, hg, hb⟩ | ⟨r, hr, hb⟩ | hb | ⟨g, hg, hb⟩
+  · have inv := hrt rt hrt'
+    rcases hn with hn | hn | hn
+    · exact hb (st _ (inv.tcpClient hc (Or.inl hn)))
+    · exact hb (st _ (inv.tcpClient hc (Or.inr hn)))
+    · exact hb (su _ (inv.udpClient hc (Or.inr hn)))
+  · exact hb (st _ (hdt h1 h2))
+  · exact hb (su _ (hdu h1 h2))
+  · rcases hb with ⟨m, hm, hb⟩ | ⟨m, hm, hb⟩
+    · exact hb (st _ ((gmem g hg).1 m hm))
+    · exact hb (su _ ((gmem g hg).2 m hm))
+  · rcases hb with ⟨h1, hb⟩ | ⟨h1, hb⟩
+    · exact hb (st _ ((hres r hr).1 h1))
+    · exact hb (su _ ((hres r hr).2 h1))
+  · exact hb gnd
+  · exact gcn g hg hb
+
+/-- satisfiable: a route to a client that does not exist -/
+example : errorOf (validate { servers := [exServer], router := { routes := [{ name := "r", client := "nosuch" }] } }) = some "route-tcp-notfound" := by
+  decide
+
+end SSV.C18
+
+namespace SSV.C18
+open SSV.Config SSV.Gen
+
+/-- an accepted configuration with a client, a client group over it and a resolver using the group
+    (the hypotheses of `accepted_groups` / `accepted_resolvers` are satisfiable) -/
+def exConfig : Config :=
+  { servers := [exServer],
+    clients := [{ name := "a", proto := .direct, enableTCP := true, enableUDP := true, mtu := 1500 }],
+    groups := [{ name := "g", tcpPolicy := "round-robin", tcpClients := ["a"] }],
+    resolvers := [{ name := "d", addrValid := true, tcpClient := "g" }],
+    router := { defaultTCP := "g", routes := [{ name := "r", network := "tcp", client := "g", resolver := "d", fromServers := ["s"] }] } }
+
+example : errorOf (validate exConfig) = none := by decide
+
+end SSV.C18
+
 #print axioms SSV.C18.gen_pskLen
 #print axioms SSV.C18.gen_mtu
 #print axioms SSV.C18.gen_nat
@@ -740,3 +890,8 @@ end SSV.C18
 #print axioms SSV.C18.effFilter_bound
 #print axioms SSV.C18.no_crash_server
 #print axioms SSV.C18.no_crash_configs
+#print axioms SSV.C18.defaults_all
+#print axioms SSV.C18.accepted_groups
+#print axioms SSV.C18.accepted_resolvers
+#print axioms SSV.C18.names_sub
+#print axioms SSV.C18.dangling_rejected
